@@ -85,6 +85,10 @@ type BaseExtra struct {
 	// Share, when set, makes the extra supply about 1/Share of the transactions of a run that
 	// selected it (default 6).
 	Share int
+	// Follow, when set, may return operations that are appended right after a transaction of the
+	// extra (a campaign: e.g. a block so that the transaction is committed, then the transactions
+	// that react to it). It draws from the same PRNG as the extra's other choices.
+	Follow func(r *core.Rand, op *TxOp) []Op
 }
 
 var baseExtras []*BaseExtra
@@ -224,6 +228,8 @@ func (e Engine) Generate(r *core.Rand, tier core.Tier) *core.Scenario {
 					op.Arg = wl.ArgGen(r, op.Kind)
 				}
 			}
+			var follow *BaseExtra
+			var followRand *core.Rand
 			for xi, x := range extras {
 				xr := extraRand[xi]
 				share := 6
@@ -241,6 +247,7 @@ func (e Engine) Generate(r *core.Rand, tier core.Tier) *core.Scenario {
 					if x.ArgGen != nil {
 						op.Arg = x.ArgGen(xr, op.Kind)
 					}
+					follow, followRand = x, xr
 				}
 			}
 			if r.Chance(1, 2) {
@@ -269,6 +276,11 @@ func (e Engine) Generate(r *core.Rand, tier core.Tier) *core.Scenario {
 				op.To = r.Intn(k.Gen.Entities + 1) // mostly escrow with entities
 			}
 			sc.Ops = append(sc.Ops, core.MustJSON(Op{K: "tx", Tx: &op}))
+			if follow != nil && follow.Follow != nil {
+				for _, f := range follow.Follow(followRand, &op) {
+					sc.Ops = append(sc.Ops, core.MustJSON(f))
+				}
+			}
 			if op.Kind == "propose" && op.Mut == "" && r.Chance(2, 3) {
 				// Campaign: produce a block so that the proposal exists, then let the validator
 				// entities vote (mostly yes) so that proposals actually pass and get executed.
